@@ -644,6 +644,8 @@ def krome_reset(ctx, pkg, rule="R4"):
                          and isinstance(a_.targets[0], ast.Name) and once.get(a_.targets[0].id) == 1}
 
             def cond_text(t):
+                if recv in {n_.id for n_ in ast.walk(t) if isinstance(n_, ast.Name)}:
+                    return ast.unparse(t)          # a test of the format class itself
                 for _ in range(3):
                     if isinstance(t, ast.Name) and t.id in local_val:
                         t = local_val[t.id]
